@@ -2,6 +2,7 @@ package main
 
 import (
 	"fmt"
+	"go/constant"
 	"go/token"
 	"go/types"
 	"strings"
@@ -289,20 +290,26 @@ func rejectsNilElements(f *ssa.Function) bool {
 			continue
 		}
 		l := normLit(condEdge{ifi.Cond, true})
-		if l.Kind != "cmp" || (l.Op != token.EQL && l.Op != token.NEQ) {
+		var succ *ssa.BasicBlock
+		if l.Kind == "call" && isNullPredicate(staticCallee(l.Call)) {
+			// if isNull(element) { return error }: the predicate is applied to an element of the parameter
+			onElem := false
+			for _, a := range l.Call.Call.Args {
+				o := origins(throughValueOf(a))
+				if o.hasPrefix("param:") && (o["index"] || o["rangeiter"]) {
+					onElem = true
+				}
+			}
+			if !onElem {
+				continue
+			}
+			succ = b.Succs[0]
+			if !l.Pol {
+				succ = b.Succs[1]
+			}
+		} else {
+			// a bare "element == nil" misses typed nil pointers and nulls nested in containers (F40, F42)
 			continue
-		}
-		c, isC := l.Y.(*ssa.Const)
-		if !isC || c.Value != nil {
-			continue
-		}
-		o := origins(l.X)
-		if !o.hasPrefix("param:") || !(o["index"] || o["rangeiter"]) {
-			continue
-		}
-		succ := b.Succs[0]
-		if l.Op == token.NEQ {
-			succ = b.Succs[1]
 		}
 		// the nil edge must lead to a return with a non-nil last result
 		okAll, _ := mustReachFromBlock(succ, func(in ssa.Instruction) bool {
@@ -314,6 +321,117 @@ func rejectsNilElements(f *ssa.Function) bool {
 		}
 	}
 	return found
+}
+
+// literalSliceHolds: v is a slice literal ([]interface{}{..., p, ...}) one of whose elements derives from p.
+func literalSliceHolds(v ssa.Value, p *ssa.Parameter) bool {
+	sl, ok := v.(*ssa.Slice)
+	if !ok {
+		return false
+	}
+	al, ok := sl.X.(*ssa.Alloc)
+	if !ok {
+		return false
+	}
+	for _, ref := range *al.Referrers() {
+		ia, isIA := ref.(*ssa.IndexAddr)
+		if !isIA {
+			continue
+		}
+		for _, r2 := range *ia.Referrers() {
+			if st, isSt := r2.(*ssa.Store); isSt && st.Addr == ssa.Value(ia) && derivesFromParam(st.Val, p) {
+				return true
+			}
+		}
+	}
+	return false
+}
+
+// throughValueOf strips a reflect.ValueOf(x) wrapper.
+func throughValueOf(v ssa.Value) ssa.Value {
+	if c, ok := v.(*ssa.Call); ok && calleeName(c) == "ValueOf" && len(c.Call.Args) == 1 {
+		return stripIface(c.Call.Args[0])
+	}
+	return v
+}
+
+// isNullPredicate: a boolean function of one value that answers true for nil: its test "param == nil" (or, for a
+// reflect.Value parameter, "Kind() == Invalid") leads to "return true" (types.IsNullValue, hasNullValue).
+func isNullPredicate(f *ssa.Function) bool {
+	if f == nil || len(f.Blocks) == 0 || len(f.Params) != 1 || f.Signature.Results().Len() != 1 {
+		return false
+	}
+	if b, ok := f.Signature.Results().At(0).Type().Underlying().(*types.Basic); !ok || b.Kind() != types.Bool {
+		return false
+	}
+	p := ssa.Value(f.Params[0])
+	for _, b := range f.Blocks {
+		if len(b.Instrs) == 0 {
+			continue
+		}
+		ifi, ok := b.Instrs[len(b.Instrs)-1].(*ssa.If)
+		if !ok {
+			continue
+		}
+		l := normLit(condEdge{ifi.Cond, true})
+		var succ *ssa.BasicBlock
+		switch {
+		case l.Kind == "cmp" && (l.Op == token.EQL || l.Op == token.NEQ):
+			c, isC := l.Y.(*ssa.Const)
+			x := l.X
+			if !isC {
+				c, isC = l.X.(*ssa.Const)
+				x = l.Y
+			}
+			if !isC {
+				continue
+			}
+			if c.Value == nil && stripIface(loadSource(x)) == p {
+				succ = b.Succs[0]
+				if l.Op == token.NEQ {
+					succ = b.Succs[1]
+				}
+			} else if k, isK := constInt(c); isK && k == 0 {
+				// rv.Kind() == reflect.Invalid
+				if call, isCall := x.(*ssa.Call); isCall && calleeName(call) == "Kind" {
+					recv, _ := recvAndArgs(call)
+					if recv != nil && loadSource(recv) == p || recv == p {
+						succ = b.Succs[0]
+						if l.Op == token.NEQ {
+							succ = b.Succs[1]
+						}
+					}
+				}
+			}
+		}
+		if succ == nil {
+			continue
+		}
+		yes, _ := mustReachFromBlock(succ, func(in ssa.Instruction) bool {
+			ret, isRet := in.(*ssa.Return)
+			if !isRet || len(ret.Results) != 1 {
+				return false
+			}
+			for _, v := range resolvePhisOwn(ret.Results[0]) {
+				c, isC := v.(*ssa.Const)
+				if !isC || c.Value == nil || c.Value.Kind() != constant.Bool || !constant.BoolVal(c.Value) {
+					return false
+				}
+			}
+			return true
+		})
+		if yes {
+			// ... and it looks through pointers (a typed nil pointer is not == nil as an interface value)
+			ptr := false
+			forEachOwnInstr(f, func(in ssa.Instruction) {
+				if c, ok := in.(ssa.CallInstruction); ok && (calleeName(c) == "IsNil" || calleeName(c) == "Elem") {
+					ptr = true
+				}
+			})
+			return ptr
+		}
+	}
+	return false
 }
 
 // mustReachFromBlock: every path from the start of b to an exit executes a target instruction.
@@ -399,10 +517,13 @@ func ruleR03_2(w *World, r *Report) {
 					for _, path := range paths {
 						pathOK := false
 						for _, l := range path {
-							// value != nil
-							if l.Kind == "cmp" && l.Op == token.NEQ {
-								if k, isC := l.Y.(*ssa.Const); isC && k.Value == nil && l.X == ssa.Value(p) {
-									pathOK = true
+							// a bare "value != nil" is not enough: a typed nil pointer passes it (F40) - see bareNil below
+							// !isNull(value): a null predicate applied to p answered false
+							if l.Kind == "call" && !l.Pol && isNullPredicate(staticCallee(l.Call)) {
+								for _, a := range l.Call.Call.Args {
+									if derivesFromParam(throughValueOf(a), p) {
+										pathOK = true
+									}
 								}
 							}
 							// err == nil of a nil-rejecting helper applied to p
@@ -411,7 +532,7 @@ func ruleR03_2(w *World, r *Report) {
 									hf := staticCallee(ex)
 									takes := false
 									for _, a := range ex.Call.Args {
-										if derivesFromParam(a, p) {
+										if derivesFromParam(a, p) || literalSliceHolds(a, p) {
 											takes = true
 										}
 									}
@@ -423,8 +544,8 @@ func ruleR03_2(w *World, r *Report) {
 						}
 						good = good && pathOK
 					}
-					r.Check(good, cons, u.Pos(c.Pos()), "nil is refused on every path before the operation is built",
-						"a nil value can reach the operation constructor: nil is the tombstone encoding of list and map nodes, and panics in reflect for documents")
+					r.Check(good, cons, u.Pos(c.Pos()), "null (nil, a nil pointer, a null nested in a container for documents) is refused on every path before the operation is built",
+						"a null value can reach the operation constructor: no reflective null test (types.IsNullValue, or a helper built on such a predicate, with its error checked) guards it on every path; a bare comparison with nil lets a typed nil pointer through. nil is the tombstone encoding of list and map nodes, and panics in reflect for documents")
 				}
 			}
 		}
